@@ -68,12 +68,12 @@ def maxAbs (v : List Rat) : Rat := (v.map absR).foldl (fun a b => if a < b then 
 
 /-- one complex eigenpair `(λr + iλi, vr + i·vi)` of a real matrix, normwise backward error (what a backward-stable
 eigensolver delivers): every component of `A vr − (λr vr − λi vi)` and of `A vi − (λr vi + λi vr)` is at most
-`tol·(‖A‖max·‖v‖₁ + |λ|·‖v‖∞)`, and `‖v‖² ≥ 1/4` (the vector is not degenerate) -/
+`tol·(‖A‖max·‖v‖₁ + |λ|·‖v‖∞)`, and `‖v‖² ≥ 10⁻⁶` (the vector is not numerically zero; normalisation is not part of the property) -/
 def eigPairAccept (tol : Rat) (A : Mat) (lr li : Rat) (vr vi : List Rat) : Bool :=
   let av := (List.zipWith (fun a b => absR a + absR b) vr vi)
   let lam := absR lr + absR li
   let bound := tol * (maxAbs (A.map maxAbs) * absSum av + lam * maxAbs av)
-  decide ((1 : Rat) / 4 ≤ dot vr vr + dot vi vi) &&
+  decide ((1 : Rat) / 1000000 ≤ dot vr vr + dot vi vi) &&
   ((List.range A.length).all (fun i =>
     let row := A.getD i []
     decide (absR (dot row vr - (lr * vr.getD i 0 - li * vi.getD i 0)) ≤ bound) &&
